@@ -132,12 +132,33 @@ def build_extract():
             mods += m.group(1).split()
         targets = [(("gen/" + x) if os.path.exists(os.path.join(COQ, "gen", x + ".v")) else x) + ".vo" for x in mods]
         okm, outm = coq_make(targets)
+        note = ""
+        src_dir = COQ
         if not okm:
-            return False, outm[-3000:]
-        rc, out = sh(["coqc", "-Q", COQ, "TV", "-o", os.path.join(EXTRACT, "Extract.vo"),
-                      os.path.join(COQ, "Extract.v")], cwd=EXTRACT, timeout=900)
+            # The model does not build from the current sources (typically: a translator met a shape it does not know and
+            # emitted `Unrecognised`). The verdict is already a violation; to SEARCH for a failing input the check still
+            # needs an executable model: build one from the generated files of the unchanged tree (coq/gen_baseline, kept
+            # in the repository of this machinery), in a scratch copy of the development.
+            base = os.path.join(BUILD, "coq_baseline")
+            shutil.rmtree(base, ignore_errors=True)
+            os.makedirs(os.path.join(base, "gen"), exist_ok=True)
+            for rel in coq_files() + ["Extract.v", "_CoqProject"]:
+                dst = os.path.join(base, rel)
+                os.makedirs(os.path.dirname(dst), exist_ok=True)
+                shutil.copy(os.path.join(COQ, rel), dst)
+            for f in glob.glob(os.path.join(COQ, "gen_baseline", "*.v")):
+                shutil.copy(f, os.path.join(base, "gen", os.path.basename(f)))
+            rc, outb = sh(["coq_makefile", "-f", "_CoqProject", "-o", "Makefile"], cwd=base, timeout=60)
+            rc, outb = sh(["make", "-j16", "-k"] + targets, cwd=base, timeout=1500)
+            if rc != 0:
+                return False, (outm[-1500:] + "\n[baseline model] " + outb[-1500:])
+            src_dir = base
+            note = "[the model of the unchanged tree's generated files was built for the search] "
+        rc, out = sh(["coqc", "-Q", src_dir, "TV", "-o", os.path.join(EXTRACT, "Extract.vo"),
+                      os.path.join(src_dir, "Extract.v")], cwd=EXTRACT, timeout=900)
         if rc != 0:
             return False, out
+        out = note + out
         for f in glob.glob(os.path.join(VERIF, "extract", "*.ml")):
             shutil.copy(f, EXTRACT)
         rc, out2 = sh("ocamlfind ocamlopt -w -a -package str -linkpkg model.mli model.ml driver.ml -o model",
